@@ -182,11 +182,12 @@ static const Ctx& ctxRef(const ffsm2::EmptyContext&) { return g_ctx0; }
 #else
 #define CFG_PAYLOAD
 #endif
-#if H_PLANS
+#if H_PLANS && H_CAP > 0
 #define CFG_CAP ::TaskCapacityN<H_CAP>
 #else
-#define CFG_CAP
+#define CFG_CAP            // H_CAP = 0: no TaskCapacityN<> at all - the library then takes the number of states as the task capacity
 #endif
+#define H_CAP_EFFECTIVE (H_CAP > 0 ? H_CAP : H_N)
 #if H_CTX == 3
 using Config = ffsm2::Config CFG_MANUAL ::SubstitutionLimitN<H_LIMIT> CFG_CAP CFG_PAYLOAD;
 #else
@@ -833,7 +834,7 @@ int main() {
 		std::istringstream in(line); std::string kw; in >> kw;
 		if (kw == "cfg") {
 			// the binary is compiled for one configuration; refuse a script meant for another
-			std::ostringstream mine; mine << "n=" << H_N << " head=" << H_HEAD << " manual=" << H_MANUAL << " limit=" << H_LIMIT << " cap=" << H_CAP
+			std::ostringstream mine; mine << "n=" << H_N << " head=" << H_HEAD << " manual=" << H_MANUAL << " limit=" << H_LIMIT << " cap=" << H_CAP_EFFECTIVE
 				<< " payload=" << (H_PAYLOAD ? 1 : 0) << " inj_root=" << H_INJ_ROOT << " inj_state=" << H_INJ_STATE
 				<< " plans=" << H_PLANS << " serial=" << H_SERIAL << " history=" << H_HISTORY;
 			std::string rest; std::getline(in, rest);
